@@ -125,6 +125,23 @@ def r1(ctx, facts):
                 if ct["k"] == "call" and any(b.operand_origin(a) == mask_org and str(a.get("ty", "")).startswith("&mut")
                                              for a in ct["args"] if isinstance(a, dict)) and ct["callee"].get("path") not in EMPTYING:
                     bad.append(ct["line"])
+            # drop guards on the unwind path that write a BitSet back (e.g. a "put the mask back" guard)
+            for cbb in cleanup:
+                ct = b.term(cbb)
+                if ct["k"] != "drop":
+                    continue
+                glue, _ = facts.drop_glue(ct["place_ty"])
+                for g in glue:
+                    gb = facts.body(g)
+                    if not gb:
+                        continue
+                    for gbb, gt in gb.calls():
+                        if any(isinstance(a, dict) and str(a.get("ty", "")).startswith("&mut hibitset::BitSet") for a in gt["args"]) and \
+                                gt["callee"].get("path") != "hibitset::BitSet::clear":
+                            bad.append("%s (drop guard %s)" % (gb.term(gbb)["line"], g))
+                    for sbb, si, dst, rv, line in gb.stores():
+                        if "BitSet" in str(rv.get("ops", [{}])[0].get("ty", "")) if rv.get("ops") else False:
+                            bad.append("%s (drop guard %s)" % (line, g))
             ctx.ob("C19-R1", key + " unwind path leaves the mask empty", not bad, where,
                    "the cleanup path of clean() writes the owner's mask again at line(s) %s" % bad if bad else "")
     ctx.floor("C19-R1", "non-delegating clean() call sites", len(sites), 2)
